@@ -163,8 +163,10 @@ def body_factory(ctx):
         joker = tj.TheJoker(prior, rng=rg, pool=rpool)
         liblp = gens.build_samples(spec, extra={"ln_prior": -0.5 * np.arange(len(lib), dtype=float)})
         with ctx.sut("rejection_sample(return_logprobs=True)"):
+            n_lin = [1, 1, 2, 3][(spec["rng_seed"] // 7) % 4]
             out = joker.rejection_sample(data, liblp, return_logprobs=True, in_memory=spec["path"] == "mem",
-                                         randomize_prior_order=bool(spec["rng_seed"] % 2), n_batches=1 + spec["rng_seed"] % 3)
+                                         randomize_prior_order=bool(spec["rng_seed"] % 2), n_batches=1 + spec["rng_seed"] % 3,
+                                         n_linear_samples=n_lin)
         if out.t_ref is None or abs(out.t_ref.tcb.mjd - prob.t_ref) > 1e-9:
             raise Violation("returned samples do not carry the data's reference epoch", samples_t_ref=repr(out.t_ref),
                             data_t_ref=prob.t_ref)
@@ -187,9 +189,11 @@ def body_factory(ctx):
         # design-matrix columns K, v0, offsets, trend): only then is the reconstructed orbit the sampler's model
         mvn = rg.calls("multivariate_normal") if spec["path"] == "mem" else \
             [c for log in rpool.child_logs for c in log if c["name"] == "multivariate_normal"]
-        if len(mvn) == len(out):
-            for i, c_ in enumerate(mvn):
-                drawn = np.asarray(c_["out"], dtype=float).reshape(-1)
+        if len(mvn) * n_lin == len(out):
+            for i in range(len(out)):
+                c_ = mvn[i // n_lin]
+                drawn = np.atleast_2d(np.asarray(c_["out"], dtype=float))
+                drawn = drawn[i % n_lin] if drawn.shape[0] == n_lin else drawn.reshape(-1)
                 if drawn.shape == xs_out[i].shape and np.all(np.isfinite(drawn)) and \
                         not np.allclose(xs_out[i], drawn, rtol=1e-12, atol=1e-300):
                     raise Violation("the linear parameters reported for a returned row are not the coefficients (K, v0, offsets, "
